@@ -146,7 +146,7 @@ Section Reforming.
     intros Hy. unfold Calendar_year_kind, rcal. cbn [Calendar_f_0]. unfold inner_ReformGap_cmp_year, the_gap.
     cbn [inner_ReformGap_f_pre_reform inner_ReformGap_f_post_reform inner_Date_f_year inner_Date_f_month inner_Date_f_day].
     rewrite cmp_int_range_ok by apply py_le_qy. cbn [bind].
-    rewrite !match_dec31, !match_jan1, !Month_lt_ok, !Month_le_ok, !is_julian_leap_year_ok, !is_gregorian_leap_year_ok.
+    rewrite ?match_dec31, ?match_jan1, ?Month_lt_ok, ?Month_le_ok, ?Month_eq_ok, ?is_julian_leap_year_ok, ?is_gregorian_leap_year_ok.
     pose proof pm_range as PM. pose proof qm_range as QM.
     rewrite !Month_discr_of_Z by assumption. cbn [Month_discr].
     unfold year_kind_of, year_count. rewrite old_days_eq, new_days_eq, incal_feb29.
@@ -166,8 +166,7 @@ Section Reforming.
     pose proof (gleap_jleap y) as GJ.
     destruct (Z.ltb_spec y py) as [L1|L1]; cbn [bind].
     - (* strictly Julian year *)
-      replace (y <? qy) with true by lia. destruct (jleap y) eqn:JL; cbn [bind];
-        repeat match goal with |- context[if ?c then _ else _] => destruct c eqn:? end; try reflexivity; exfalso; lia.
+      replace (y <? qy) with true by lia. destruct (jleap y) eqn:JL; destruct (gleap y) eqn:GL; ysolve.
     - destruct (Z.eqb_spec y py) as [E1|N1].
       + subst y. destruct (Z.ltb_spec py qy) as [L2|L2]; cbn [bind].
         * (* EqLower *)
@@ -179,7 +178,7 @@ Section Reforming.
           ysolve.
       + destruct (Z.ltb_spec y qy) as [L2|L2]; cbn [bind].
         * (* Between *)
-          repeat match goal with |- context[if ?c then _ else _] => destruct c eqn:? end; try reflexivity; exfalso; lia.
+          destruct (jleap y) eqn:JL; destruct (gleap y) eqn:GL; ysolve.
         * destruct (Z.eqb_spec y qy) as [E2|N2]; cbn [bind].
           -- (* EqUpper *) subst y.
              destruct (jleap qy) eqn:JL; destruct (gleap qy) eqn:GL;
